@@ -41,7 +41,7 @@ CLAIMED = {
    design="DESIGN.md §3 C17"),
  "C02": dict(
    technique="bounded-exhaustive enumeration (E1) of malformed inputs on every public parsing entry point: all byte strings of length <= 2, all single-deviation mutants of generated valid encodings, nesting to depth 256, oversized lengths; inputs that can trigger an allocation abort are re-executed in child processes (fault isolation)",
-   text="145 byte-level entry points (every codec type, raw hash/key/signature parsers, FixedTransaction, ByronAddress, has_transaction_set_tag) x all 65 793 byte strings of length <= 2; ~1 000 valid seed encodings (generators at deviation <= 1) x every truncation point, 20 structural substitutions at every position, inserted break/null/container heads at every gap, every head rewritten to 0/n-1/n+1/n+2, definite->indefinite heads, duplicated tail entries, every length head rewritten to 2^16..2^63; five container kinds nested to depth 256 in 15 recursive/enclosing types; malformed hex for every from_hex, every single-node replacement inside each type's own JSON, malformed Bech32/Base58/decimal text for 21 text parsers, ~300 documents for 13 free helpers (incl. string atoms with a multi-byte character at byte offsets 0-3 in every string position). Oracle: the call returns (no panic, no abort), and an accepted value re-serialises to exactly one well-formed CBOR item for an independent reader. Choice vectors whose input could make the CBOR reader allocate a declared length are re-executed one by one in child processes so that an abort is attributed to one input.",
+   text="145 byte-level entry points (every codec type, raw hash/key/signature parsers, FixedTransaction, ByronAddress, has_transaction_set_tag) x all 65 793 byte strings of length <= 2; ~1 000 valid seed encodings (generators at deviation <= 1) x every truncation point, 20 structural substitutions at every position, inserted break/null/container heads at every gap, every head rewritten to 0/n-1/n+1/n+2, definite->indefinite heads, duplicated tail entries, every length head rewritten to 2^16..2^63; nine container kinds (incl. set-tagged and general-constructor forms) nested to depths 1..256 in 15 recursive/enclosing types; malformed hex for every from_hex, every single-node replacement inside each type's own JSON, malformed Bech32/Base58/decimal text for 21 text parsers, ~300 documents for 13 free helpers (incl. string atoms with a multi-byte character at byte offsets 0-3 in every string position). Oracle: the call returns (no panic, no abort; a watchdog reports a decoder still running after 20 s), and an accepted value re-serialises to exactly one well-formed CBOR item for an independent reader. Choice vectors whose input could make the CBOR reader allocate a declared length are re-executed one by one in child processes so that an abort is attributed to one input.",
    note="Trusted: refcbor. Nesting > 256 out of scope. Two known findings (allocation of declared lengths inside cbor_event; lenient length checks + byte-preserving types re-emit malformed input). Thorough adds all pairs of substitutions on seeds <= 64 bytes.",
    design="DESIGN.md §3 C02"),
  "C03": dict(
